@@ -1,6 +1,6 @@
 (* Checker evaluated by vm_compute on the correspondence cases of C13 (harness/c13.py).  Definitions only. *)
 From Coq Require Import List ZArith Bool Arith.
-Require Import Styles Stylespart Stylesops Stylesinvb.
+Require Import Styles Stylesproof Stylespart Stylesops Stylesinvb.
 Import ListNotations.
 Open Scope Z_scope.
 
@@ -60,7 +60,7 @@ Definition chk0 (c : cstep) : nat :=
       | Some f =>
         let m := mode_of automatic default in
         let slot := required_slot T f m in
-        let s' := mkE (if default then t_default T else etag s) (efam s) ret (edraw s) (eid s) in
+        let s' := mkE (if default && negb (special T f) then t_default T else etag s) (efam s) ret (edraw s) (eid s) in
         let generated := automatic && negb default &&
                          (match name_arg, ename s with None, None => true | _, _ => false end) in
         if negb (opt_eqb entry_eqb (last_entry (slot_list post slot)) (Some s')) then 1%nat
